@@ -42,6 +42,8 @@ pub struct Case {
     pub cfg: YuvConfig,
     pub u8_storage: bool,
     pub content_seed: u64,
+    /// Plane::new padding of the frame handed to Yuv::new (storage geometry must not matter)
+    pub pad: (usize, usize),
 }
 
 fn op_name(o: Op) -> &'static str {
@@ -57,7 +59,7 @@ fn op_name(o: Op) -> &'static str {
     }
 }
 fn case_json(c: &Case) -> Value {
-    json!({"prop":"C15","op":op_name(c.op),"w":c.w,"h":c.h,"cfg":cfg_json(&c.cfg),"storage": if c.u8_storage {"u8"} else {"u16"},"content_seed":c.content_seed.to_string()})
+    json!({"prop":"C15","op":op_name(c.op),"w":c.w,"h":c.h,"cfg":cfg_json(&c.cfg),"storage": if c.u8_storage {"u8"} else {"u16"},"content_seed":c.content_seed.to_string(),"pad":[c.pad.0,c.pad.1]})
 }
 
 /// resolution the statement prescribes for a YUV config
@@ -128,7 +130,8 @@ fn run_yuv_ops<T: Pixel>(c: &Case, st: &mut Stats) -> Result<(), String> {
     match c.op {
         Op::YuvNew => {
             let mk = |fill: u8| -> Frame<T> {
-                let mut planes = [Plane::<T>::new(w, h, 0, 0, 0, 0), Plane::<T>::new(w, h, 0, 0, 0, 0), Plane::<T>::new(w, h, 0, 0, 0, 0)];
+                let (xp, yp) = c.pad;
+                let mut planes = [Plane::<T>::new(w, h, 0, 0, xp, yp), Plane::<T>::new(w, h, 0, 0, xp / 2, yp), Plane::<T>::new(w, h, 0, 0, xp, yp / 2)];
                 if fill != 128 {
                     for p in planes.iter_mut() {
                         for v in p.data.iter_mut() {
@@ -252,8 +255,35 @@ fn run_rgb_ops(c: &Case, st: &mut Stats) -> Result<(), String> {
     Ok(())
 }
 
+/// a call with the same size and the same given metadata but a different range / depth: the
+/// resolution is a pure function of config and dimensions, so it must not leak into the next call
+fn sibling(c: &Case) -> Case {
+    let mut s = c.clone();
+    s.cfg.full_range = !c.cfg.full_range;
+    if !c.u8_storage {
+        s.cfg.bit_depth = if c.cfg.bit_depth == 10 { 12 } else { 10 };
+    }
+    s
+}
+
 pub fn check(c: &Case, st: &mut Stats) -> Result<(), Violation> {
     st.evaluations += 1;
+    if c.w * c.h <= 1 << 16 {
+        let sib = sibling(c);
+        let _ = catch(|| {
+            let mut scratch = Stats::new();
+            match sib.op {
+                Op::RgbNew | Op::LinToRgb | Op::XybToRgb => run_rgb_ops(&sib, &mut scratch),
+                _ => {
+                    if sib.u8_storage {
+                        run_yuv_ops::<u8>(&sib, &mut scratch)
+                    } else {
+                        run_yuv_ops::<u16>(&sib, &mut scratch)
+                    }
+                }
+            }
+        });
+    }
     let r = catch(|| {
         let mut local = Stats::new();
         let r = match c.op {
@@ -332,7 +362,10 @@ pub fn cases(ctx: &Ctx) -> Vec<Case> {
                                 (0, 0),
                             );
                             let seed = if ctx.quick() { 0 } else { mix64(ctx.seed ^ (w * 7919 + h) as u64 ^ ((subset as u64) << 40)) };
-                            out.push(Case { op: *op, w, h, cfg: c, u8_storage: u8s, content_seed: seed });
+                            out.push(Case { op: *op, w, h, cfg: c, u8_storage: u8s, content_seed: seed, pad: (0, 0) });
+                            if *op == Op::YuvNew && !big && subset != 0 {
+                                out.push(Case { op: *op, w, h, cfg: c, u8_storage: u8s, content_seed: seed, pad: [(8, 4), (0, 16), (17, 1)][(w + h + subset as usize) % 3] });
+                            }
                         }
                     }
                 }
@@ -355,7 +388,7 @@ pub fn cases(ctx: &Ctx) -> Vec<Case> {
                     false,
                     (0, 0),
                 );
-                out.push(Case { op: Op::YuvNew, w, h, cfg: c, u8_storage: true, content_seed: 0 });
+                out.push(Case { op: Op::YuvNew, w, h, cfg: c, u8_storage: true, content_seed: 0, pad: if subset % 2 == 1 && w * h < 500_000 { (0, 4) } else { (0, 0) } });
             }
         }
     }
@@ -389,8 +422,9 @@ pub fn replay(v: &Value) -> Result<(), String> {
         cfg: cfg_from_json(v.get("cfg").ok_or("cfg")?).ok_or("cfg")?,
         u8_storage: v.get("storage").and_then(|s| s.as_str()) == Some("u8"),
         content_seed: v.get("content_seed").and_then(|s| s.as_str()).and_then(|s| s.parse().ok()).unwrap_or(0),
+        pad: v.get("pad").and_then(|p| p.as_array()).map(|a| (a[0].as_u64().unwrap_or(0) as usize, a[1].as_u64().unwrap_or(0) as usize)).unwrap_or((0, 0)),
     };
     check(&c, &mut Stats::new()).map_err(|v| v.message)
 }
 
-pub const RULE: &str = "enumeration: widths {1,2,16,1279,1280,1281} x heights {1,2,479..=489,575..=577,1279..=1281} x matrices x the 8 subsets of {matrix, primaries, transfer} set to Unspecified x {Yuv::new, Rgb::new, (LinearRgb|Xyb,t,p)->Rgb, (&Rgb|Rgb|LinearRgb|Xyb,cfg)->Yuv} (thorough: depths 8/10/16, random colour content, conversions of large frames). Oracle: (i) no accessor returns Unspecified; (ii) the resolved values equal the heuristic re-implemented from the statement, are the same on a second call and for other sample data; (iii) label = content: converting the same input with the stored (resolved) config given explicitly yields the same samples within max(1, 1.5% of the code range), and decoding the output with its own config and re-encoding reproduces them within the same budget. Conversions that fail are counted, not judged. A case = one (operation, size, config) triple; non-trivial = at least one field Unspecified; distinct by construction (hash of the case)";
+pub const RULE: &str = "enumeration: widths {1,2,16,1279,1280,1281} x heights {1,2,479..=489,575..=577,1279..=1281} x matrices x the 8 subsets of {matrix, primaries, transfer} set to Unspecified x {Yuv::new, Rgb::new, (LinearRgb|Xyb,t,p)->Rgb, (&Rgb|Rgb|LinearRgb|Xyb,cfg)->Yuv} (thorough: depths 8/10/16, random colour content, conversions of large frames). Oracle: (i) no accessor returns Unspecified; (ii) the resolved values equal the heuristic re-implemented from the statement, are the same on a second call and for other sample data; (iii) label = content: converting the same input with the stored (resolved) config given explicitly yields the same samples within max(1, 1.5% of the code range), and decoding the output with its own config and re-encoding reproduces them within the same budget. Frames handed to Yuv::new are also built with Plane::new paddings (storage geometry must not matter); every case is preceded by a sibling call with the same size and given metadata but another range/depth (no state may leak between calls). Conversions that fail are counted, not judged. A case = one (operation, size, config) triple; non-trivial = at least one field Unspecified; distinct by construction (hash of the case)";
